@@ -231,6 +231,8 @@ def pipes(ctx):
 
 
 def pipe(ctx, backend, direction, **kw):
+    if getattr(ctx, "params", None) and ctx.params.get("n_items") and "n" in kw:
+        kw["n"] = max(kw["n"], ctx.params["n_items"])
     k = ("pipe", backend, direction, repr(sorted(kw.items())))
     return ctx.get(k, lambda: Pipe(ctx, backend, direction, **kw))
 
